@@ -144,5 +144,5 @@ def gen_cases(tier, seed):
     if tier == "quick":
         return ([{"idx": i, "seed": seed, "n_ops": 30, "cost": 1} for i in range(400)]
                 + [{"kind": "realistic", "idx": i, "seed": seed, "n_ops": 25, "cost": 3} for i in range(60)])
-    return ([{"idx": i, "seed": seed, "n_ops": 60, "big": i % 3 == 0, "cost": 2} for i in range(6000)]
-            + [{"kind": "realistic", "idx": i, "seed": seed, "n_ops": 40, "cost": 4} for i in range(800)])
+    return ([{"idx": i, "seed": seed, "n_ops": 60, "big": i % 3 == 0, "cost": 2} for i in range(20000)]
+            + [{"kind": "realistic", "idx": i, "seed": seed, "n_ops": 40, "cost": 4} for i in range(2400)])
